@@ -513,7 +513,14 @@ func (w *Worker) builtin(s *State, f *Frame, x *ssa.Call, name string, args []Va
 		case StrV: // append([]byte, string...)
 			cs, ok := b.chars()
 			if !ok {
-				panic(engineErr("append of opaque string to bytes"))
+				// an opaque string appended to bytes: the result is the concatenation, as a byte string
+				as := litStr("")
+				if a.Obj != 0 {
+					as = w.stringOfBytes(s, a).(StrV)
+				}
+				set(w.bytesOfString(s, strConcat(as, b)))
+				blobDone = true
+				break
 			}
 			for _, c := range cs {
 				elems = append(elems, charInt(c))
@@ -721,7 +728,6 @@ func (w *Worker) substrOf(st *State, str StrV, lo, hi, total IntV) StrV {
 	}
 	return r
 }
-
 
 // sliceStrSym is str[lo:hi] with a symbolic bound: bounds check, then substrOf.
 func (w *Worker) sliceStrSym(s *State, f *Frame, x *ssa.Slice, str StrV) ([]*State, bool) {
